@@ -5,7 +5,7 @@
    packet of a finite universe after every step of the implementation's script
    on the strict device (Cisco.Oracle.step_scan); see DESIGN.md for the known
    findings F-C14-1 and F-C14-2 and for the statement that is refuted. *)
-From Coq Require Import List String.
+From Coq Require Import List String NArith.
 From NA Require Import Base.Str Linux.Model Linux.Proofs.
 
 Theorem C14_linux_routes_covered_stepwise :
@@ -16,6 +16,16 @@ Theorem C14_linux_routes_covered_stepwise :
       covered addr covers (specs a) x -> covered addr covers (specs b) x -> covered addr covers t x.
 Proof. exact routes_covered_stepwise_proved. Qed.
 Print Assumptions C14_linux_routes_covered_stepwise.
+
+(* The same with the containment the check evaluates: a route to IP/LEN covers the IPv4 addresses that agree
+   with IP in the first LEN bits (Linux.Check.covers_addr); e.g. a /16 replaced by a /24 and a /8. *)
+From NA Require Import Linux.Check Linux.PrefixCover.
+Theorem C14_linux_routes_prefix_cover_stepwise :
+  forall a b, NoDup (specs a) -> NoDup (specs b) ->
+  forall k t (x : N), kexec_prefix k (specs a) (diff_routes a b) = Some t ->
+    covered_addr (specs a) x = true -> covered_addr (specs b) x = true -> covered_addr t x = true.
+Proof. exact routes_prefix_cover_stepwise. Qed.
+Print Assumptions C14_linux_routes_prefix_cover_stepwise.
 
 (* ACL half, for the scripts without moves: new lines are inserted top-down, then
    old lines are deleted bottom-up.  For every first-match semantics (any packet
